@@ -50,6 +50,16 @@ func execute(scn *Scenario) *RunResult {
 	ambReset(scn.RunSeed)
 	freshBroken = ""
 	res := executeInner(scn)
+	if amb.spawned > 0 {
+		res.EvHash ^= amb.hash
+	}
+	if os.Getenv("SLIMSIM_AMBDBG") != "" {
+		fmt.Fprintf(os.Stderr, "AMBDBG run=%d strat=%s steps=%d ev=%016x spawned=%d switches=%d ambsteps=%d ambhash=%016x kids=%d", scn.Run, scn.Strat.Kind, res.Steps, res.EvHash, amb.spawned, amb.switches, amb.steps, amb.hash, len(amb.kids))
+		for _, k := range amb.kids {
+			fmt.Fprintf(os.Stderr, " [daemon=%v blocked=%v spin=%v done=%v]", k.daemon, k.blocked, k.spin, k.done)
+		}
+		fmt.Fprintln(os.Stderr)
+	}
 	if amb.spawned > 0 && res.Counters != nil {
 		res.Counters["library_goroutines_started"] += amb.spawned
 		res.Counters["library_goroutine_switches_outside_sim"] += amb.switches
